@@ -36,6 +36,8 @@ pub enum Op {
     ParseNumber(String),
     ParseSymbol(String),
     ParseText(String),
+    /// (literal body with `\u{..}` escapes, the text it denotes) — non-ASCII content from ASCII source, Basic only
+    ParseTextEscaped(String, String),
     ParseBytes(String),
     /// start_list / add_to_list* / end_list; `keyed` wraps each item in a pair keyed by a distinct symbol
     MakeList(Vec<usize>, bool),
@@ -217,6 +219,13 @@ fn apply<D: SimData>(d: &mut D, m: &mut Model, op: &Op, out: &mut Outcome) -> Ap
             added!(addr, Val::Sym(sym))
         }
         Op::ParseText(t) => added!(tryq!(d.parse_add_char_list(&format!("\"{}\"", t)), "parse_add_char_list"), Val::Text(t.clone())),
+        Op::ParseTextEscaped(src, expect) => {
+            if !D::IS_BASIC {
+                // SimpleGarnishData's char-list length counts bytes (C14's subject)
+                return Applied::Skipped;
+            }
+            added!(tryq!(d.parse_add_char_list(&format!("\"{}\"", src)), "parse_add_char_list"), Val::Text(expect.clone()))
+        }
         Op::ParseBytes(t) => added!(tryq!(d.parse_add_byte_list(&format!("'{}'", t)), "parse_add_byte_list"), Val::Bytes(t.as_bytes().to_vec())),
         Op::MakeList(sels, keyed) => {
             let mut items: Vec<usize> = vec![];
@@ -688,7 +697,16 @@ fn gen_op(rng: &mut Rng, basic: bool) -> Op {
         15 => Op::AddPartial(rng.below(1000), rng.below(1000)),
         16 => Op::ParseNumber(rng.below(500).to_string()),
         17 => Op::ParseSymbol(rng.pick(&["alpha", "b", "gamma3", "k", "delta_x"]).to_string()),
-        18 => Op::ParseText(rng.pick(&["", "a", "hello", "two words", "abcdefghijkl"]).to_string()),
+        18 => {
+            if basic && rng.chance(1, 4) {
+                // multi-byte characters written with escapes, so that the (byte-counting, C14) literal parser is
+                // not in the way; SimpleGarnishData's char-list length counts bytes, so Basic only
+                let (src, expect) = *rng.pick(&[("\\u{e9}", "\u{e9}"), ("a\\u{e9}b", "a\u{e9}b"), ("\\u{65e5}\\u{672c}", "\u{65e5}\u{672c}"), ("x\\u{1f600}y", "x\u{1f600}y")]);
+                Op::ParseTextEscaped(src.to_string(), expect.to_string())
+            } else {
+                Op::ParseText(rng.pick(&["", "a", "hello", "two words", "abcdefghijkl"]).to_string())
+            }
+        }
         19 => Op::ParseBytes(rng.pick(&["a", "bc", "wxyz"]).to_string()),
         20 => {
             let n = rng.range(0, 5);
